@@ -254,18 +254,21 @@ theorem value_tail_eq (bytes : Str) (vs : Nat) (pre2 s2 : Str) (quoted : Bool) (
   simp only
   cases quoted with
   | false =>
-    simp only [Bool.false_and, Bool.false_eq_true, if_false, dropQuote]
+    have hdq : dropQuote false r3 = r3 := by unfold dropQuote; split <;> simp_all
+    simp only [Bool.false_and, Bool.false_eq_true, if_false, hdq]
     exact finish_eq' _ _ (pre2 ++ v) r3 v false (by simp) (by simp)
   | true =>
-    simp only [Bool.true_and, dropQuote, if_true]
+    simp only [Bool.true_and]
     cases r3 with
     | nil =>
       have hd : decide (pre2.length + v.length ≠ (pre2 ++ (v ++ [])).length) = false := by simp
-      simp only [hd, Bool.false_eq_true, if_false, List.tail_nil]
+      have hdq : dropQuote true [] = [] := rfl
+      simp only [hd, Bool.false_eq_true, if_false, hdq]
       exact finish_eq' _ _ (pre2 ++ v) [] v true (by simp) (by simp)
     | cons c t' =>
       have hd : decide (pre2.length + v.length ≠ (pre2 ++ (v ++ c :: t')).length) = true := by simp
-      simp only [hd, if_true, List.tail_cons]
+      have hdq : dropQuote true (c :: t') = t' := rfl
+      simp only [hd, if_true, hdq]
       exact finish_eq' _ _ (pre2 ++ v ++ [c]) t' v true (by simp) (by simp; omega)
 
 theorem parseParamValueI_eq (pre s : Str) :
